@@ -84,7 +84,10 @@
 (***************************************************************************)
 EXTENDS Integers, Sequences, FiniteSets, TLC, Json, IOUtils
 
-CONSTANT Source          \* "enum" | "file"
+CONSTANTS Source,        \* "enum" | "file"
+          MovedModuleDocformat  \* the __docformat__ a re-exported MODULE inherits when it declares none itself:
+                          \* "new_package" (Module.docformat asks self.parent, which reparent() has set to the package
+                          \* that re-exports it, model.py:514-528) | "defining_package"
 
 DocFormats == {"epytext", "restructuredtext", "plaintext", "google", "numpy"}
 Docutils == DocFormats \ {"plaintext"}     \* formats rendered through docutils nodes
@@ -100,6 +103,11 @@ Routes ==
     xrefepy    |-> <<"ToNode", "DocutilsEncode", "ParseXml", "LinkLabel", "FlattenInner", "ParseXml", "FlattenToFile">>,
     doctest    |-> <<"ToNode", "Colorize", "FlattenInner", "ParseXml", "FlattenToFile">>,
     rstquote   |-> <<"RstInterpolate", "ToNode", "DocutilsEncode", "ParseXml", "FlattenToFile">>,
+    \* a ".. raw:: html" block read by the reST parser: a raw node whose content the HTML writer copies (visit_raw); its
+    \* tags become elements, the text between them stays as it was.  rawexplicit: the block is in a reST docstring - the
+    \* author's explicit raw directive, EXEMPT from the property.  rawdirective: the text of a PLAINTEXT docstring.
+    rawexplicit  |-> <<"ToNode", "DocutilsRaw", "ParseXmlTags", "FlattenToFile">>,
+    rawdirective |-> <<"ToNode", "DocutilsRaw", "ParseXmlTags", "FlattenToFile">>,
     \* :math:`\text{...}` / `\mbox{...}`: docutils math2html copies text-mode content unescaped into the HTML
     \* (visit_math is not overridden in node2stan.py): entity look-alikes are decoded by html2stan
     mathtext   |-> <<"ToNode", "MathToHtml", "ParseXml", "FlattenToFile">> ]
@@ -120,7 +128,9 @@ Stage ==
     Fallback       |-> [from |-> {"lost"},         to |-> "stan", d |-> 0],   \* level := 0, see Apply
     Elide          |-> [from |-> {"lost"},         to |-> "none", d |-> 0],
     RstInterpolate |-> [from |-> {"src"},          to |-> "src",  d |-> 0],
-    MathToHtml     |-> [from |-> {"node"},         to |-> "html", d |-> 0] ]
+    MathToHtml     |-> [from |-> {"node"},         to |-> "html", d |-> 0],
+    DocutilsRaw    |-> [from |-> {"node"},         to |-> "html", d |-> 0],
+    ParseXmlTags   |-> [from |-> {"html"},         to |-> "stan", d |-> 0] ]
 
 \* ----------------------------------------------------------------------------- sinks per source kind
 S(z, c, q) == [zone |-> z, ctx |-> c, quoted |-> q]
@@ -218,6 +228,21 @@ Feeds ==
   \* interpreted text `payload` of a clean reST docstring parsed after docstrings that declare a raw-based default
   \*   role (RoleHistory.tla: every docstring starts under the standard default role): a cross reference label
   \cup { Feed("rolehist", S(z, "text", FALSE), "xrefrst") : z \in {"alldocs", "childtable", "docstring"} }
+  \* the SAME docstring text (payload + a block that is a raw directive for reST) in a restructuredtext module and in a
+  \*   `__docformat__ = "plaintext"` module, both roots, both orders: each docstring is parsed by the parser of the module
+  \*   it is written in, whatever was parsed before (epydoc2stan.parse_docstring parses every docstring anew)
+  \cup { Feed("sametext." \o o, S(z, "text", FALSE), "docutils") : o \in {"rstfirst", "plainfirst"}, z \in {"alldocs", "childtable", "docstring"} }
+  \cup { Feed("sametext." \o o, S("docstring", "text", FALSE), "stan") : o \in {"rstfirst", "plainfirst"} }
+  \cup { Feed("sametext." \o o, S("docstring", "text", FALSE), "rawexplicit") : o \in {"rstfirst", "plainfirst"} }
+  \* a function of a module of a `__docformat__ = "plaintext"` package, the MODULE being re-exported by a restructuredtext
+  \*   package: plaintext like doc.plaintext - but see MovedModuleDocformat
+  \cup { Feed("reexportmodule.plaintext", S(z, "text", FALSE), "docutils") : z \in {"alldocs", "childtable"} }
+  \cup { Feed("reexportmodule.plaintext", S("docstring", "text", FALSE), "stan") }
+  \cup { Feed("reexportmodule.plaintext", S("docstring", "text", FALSE), "rawdirective") }
+  \* code blocks of a reST docstring, by language: ".. code:: LANG" / ".. code-block:: LANG" / ".. python::" all become a
+  \*   doctest_block node whose text is colorized as Python whatever the language (restructuredtext.py:470-520,
+  \*   node2stan.visit_doctest_block): Colorize -> flatten -> parsed
+  \cup { Feed("codeblock." \o l, S("docstring", "text", FALSE), "doctest") : l \in {"none", "python", "html", "shell"} }
   \* text-mode content of inline math in a reST docstring
   \cup { Feed("mathtext", S("docstring", "text", FALSE), "mathtext") }
   \* options                                                              (pages/__init__.py:182-186)
@@ -230,8 +255,9 @@ Kinds == {f.kind : f \in Feeds}
 Classes == {"plain", "xmlbreak", "linesep"}
 \* a feed only exists for some payload classes
 Active(f, cls) ==
-  (cls = "linesep") => f.kind = "deprecated"              \* elsewhere a line separator is an ordinary character
-IsParse(st) == st = "ParseXml"
+  /\ (cls = "linesep") => f.kind = "deprecated"           \* elsewhere a line separator is an ordinary character
+  /\ (f.route = "rawdirective") => MovedModuleDocformat = "new_package"
+IsParse(st) == st \in {"ParseXml", "ParseXmlTags"}
 FirstParse(r) == CHOOSE i \in 1..Len(r) : IsParse(r[i]) /\ \A j \in 1..(i - 1) : ~IsParse(r[j])
 HasParse(r) == \E i \in 1..Len(r) : IsParse(r[i])
 Cut(r) == SubSeq(r, 1, FirstParse(r) - 1) \o <<"ParseXmlFails">>
@@ -251,7 +277,7 @@ Apply(st, lv) == IF st = "ParseXml" THEN lv - 1
                  ELSE IF st = "Fallback" THEN 0
                  ELSE lv + Stage[st].d
 \* what the wrapped functions report: a raising html2stan is a ParseXml step with level out -3
-ObsStage(st) == IF st = "ParseXmlFails" THEN "ParseXml" ELSE st
+ObsStage(st) == IF st \in {"ParseXmlFails", "ParseXmlTags"} THEN "ParseXml" ELSE st
 ObsOut(st, lv) == IF st = "ParseXmlFails" THEN -3 ELSE Apply(st, lv)
 
 RECURSIVE Walk(_, _, _, _)
@@ -260,7 +286,7 @@ Walk(route, i, lv, c) ==
   IF i > Len(route) THEN <<>>
   ELSE LET st == route[i] IN
        <<[stage |-> ObsStage(st), lin |-> lv, lout |-> ObsOut(st, lv), typed |-> c \in Stage[st].from,
-          raw |-> st \in {"ParseXml", "ParseXmlFails"} /\ lv = 0]>> \o Walk(route, i + 1, Apply(st, lv), Stage[st].to)
+          raw |-> st \in {"ParseXml", "ParseXmlFails", "ParseXmlTags"} /\ lv = 0]>> \o Walk(route, i + 1, Apply(st, lv), Stage[st].to)
 Flow(f, cls) == Walk(RouteSeq(f, cls), 1, 0, "src")
 Reaches(f, cls) == LET r == RouteSeq(f, cls) IN r[Len(r)] = "FlattenToFile"
 Final(f, cls) == LET w == Flow(f, cls) IN w[Len(w)].lout
@@ -298,7 +324,7 @@ Step ==
        /\ cont \in Stage[st].from                       \* WellTyped: a stage only takes what the code gives it
        /\ level' = Apply(st, level)
        /\ cont' = Stage[st].to
-       /\ parsedRaw' = (parsedRaw \/ (st \in {"ParseXml", "ParseXmlFails"} /\ level = 0))
+       /\ parsedRaw' = (parsedRaw \/ (st \in {"ParseXml", "ParseXmlFails", "ParseXmlTags"} /\ level = 0))
        /\ hist' = Append(hist, <<ObsStage(st), level, ObsOut(st, level)>>)
   /\ pc' = pc + 1
   /\ UNCHANGED <<pair, cls>>
@@ -310,9 +336,12 @@ Done == pc = Len(Route) + 1
 
 \* ----------------------------------------------------------------------------- properties (model)
 NeverParsedRaw == ~parsedRaw
-\* open known finding math-text-mode-copied-raw: the invariants hold everywhere else
+\* open known findings (math text mode, docformat of a re-exported module): the invariants hold everywhere else
 KF_MathTextCopiedRaw == Source = "enum" /\ pair.route = "mathtext"
-NeverParsedRawExceptKnown == NeverParsedRaw \/ KF_MathTextCopiedRaw
+KF_MovedModuleDocformat == Source = "enum" /\ pair.route = "rawdirective"
+\* the author's own raw directive in a reST docstring is outside the property
+Exempt == Source = "enum" /\ pair.route = "rawexplicit"
+NeverParsedRawExceptKnown == NeverParsedRaw \/ KF_MathTextCopiedRaw \/ KF_MovedModuleDocformat \/ Exempt
 \* a flow ends in the page at level 1 - or, after an XML error, nowhere; fallback routes included
 SinkLevelOne == (Source = "enum" /\ Done) => ((cont = "file" /\ level = 1) \/ (cont = "none" /\ cls = "xmlbreak"))
 SinkLevelOneExceptKnown == SinkLevelOne \/ KF_MathTextCopiedRaw
